@@ -111,6 +111,8 @@ def run(repo, rep):
     rule_file_type_dispatch(repo, rep)
     rep.clause("C13-ba", "operator attributes that hold subgraphs are written as the containers their readers iterate (CALL_ONCE / WHILE / IF: tuples)")
     rule_subgraph_attr_shape(repo, rep)
+    rep.clause("C13-bc", "the constant folding of QUANTIZE walks scalar elements in every branch: loops over the input values iterate the flattened array (a constant of rank 2 or more is not a sequence of scalars) and the result takes the input's shape")
+    rule_quantize_fold_elements(repo, rep)
     rep.clause("C13-au", "members of an operator's (optional) options table are read with .get() or under a membership test in the reader")
     rule_option_members_optional(repo, rep)
     rep.clause("C13-aq", "the scale check rejects a tensor if any of its scales is infinite (quantifier kept under negation)")
@@ -2696,3 +2698,25 @@ def rule_subgraph_attr_shape(repo, rep):
                               f"`{norm(a)[:90]}`: live_range.extract_live_ranges_from_cascaded_passes iterates the attribute: TypeError 'Subgraph' object is not iterable for a model with this operator")
     if n < 2:
         raise AnalysisError(f"readers: {n} stores into attrs['subgraph'] found")
+
+
+def rule_quantize_fold_elements(repo, rep):
+    """Sibling agreement inside tflite_graph_optimiser.optimise_quantize: the requantisation branch iterates `input_values.flatten()` and
+    restores the shape; the float branch must do the same. `for val in input_values:` yields rows for rank >= 2: `round_away_zero(row)`
+    tests `f < 0` on an array (ValueError: truth value of an array is ambiguous) for [1, 4] or [1, 2, 2, 4] constants."""
+    go = repo.mod("tflite_graph_optimiser")
+    f = go.func("optimise_quantize")
+    site = "ethosu/vela/tflite_graph_optimiser.py:optimise_quantize"
+    if f is None:
+        raise AnalysisError("tflite_graph_optimiser.optimise_quantize not found")
+    loops = [l for l in ast.walk(f) if isinstance(l, ast.For) and "input_values" in str(norm(l.iter))]
+    if len(loops) < 2:
+        raise AnalysisError(f"optimise_quantize: {len(loops)} loops over the input values")
+    for l in loops:
+        it_ = str(norm(l.iter))
+        flat = any(k in it_ for k in (".flatten()", ".flat", ".ravel()", "np.nditer(", ".reshape(-1)"))
+        rep.check(flat, "C13-bc", site, f"`for {norm(l.target)} in {it_}` iterates scalar elements",
+                  f"`for {norm(l.target)} in {it_}` iterates the first axis: a float32 constant of shape [1, 4] hands a row to round_away_zero (ValueError: the truth value of an array with more than one element is ambiguous)")
+    shp = [a for a in ast.walk(f) if (isinstance(a, ast.Assign) and str(norm(a.targets[0])).endswith(".values.shape") and "input_values.shape" in str(norm(a.value)))
+           or (isinstance(a, ast.Call) and isinstance(a.func, ast.Attribute) and a.func.attr == "reshape" and "input_values.shape" in str(norm(a)))]
+    rep.check(len(shp) >= len(loops), "C13-bc", site, f"the folded values take the input's shape in each of the {len(loops)} branches", f"{len(shp)} of {len(loops)} branches restore `input_values.shape`")
